@@ -49,7 +49,12 @@ def run(ck, F, E):
         # both tokenizers read the same text that was parsed for the number
         tn = [x for x in run_.calls() if sfx(x.callee, "Tokenizer::new")]
         pn = run_.calls_to("line_number_parser::parse_line_number")
-        ok = bool(tn) and bool(pn) and show(strip_refs(run_.expr(tn[0].args[0]))) == show(strip_refs(run_.expr(pn[0].args[0])))
+        ok = bool(tn) and bool(pn)
+        if ok:
+            from props import C13
+            f1, p1 = C13.text_source(run_, tn[0].args[0])
+            f2, p2 = C13.text_source(run_, pn[0].args[0])
+            ok = not f1 and not f2 and p1 == p2 and len(p1) == 1
         ck.require(ok, "C15:PIPE:analyzer-same-text", "same storing pipeline", "the tokenizer reads the line whose number was parsed",
                    "the analyzer tokenizes a different text from the one it parsed the number from", run_.span)
     ii = get_fn(ck, F, "SourceFileAnalyzer::into_interpreter")
@@ -87,6 +92,11 @@ def run(ck, F, E):
                     ok = True
         ck.require(ok, "C15:PIPE:from_program", "same storing pipeline", "from_program installs exactly the given program and strings",
                    "Interpreter::from_program no longer installs the given program", fpb.span)
+
+    # ---- (1b) every file load runs the analyzer first (also with --skip-check), so "loading equals typing" needs the
+    # analyzer's line bookkeeping to be total on every well-formed file, including files that redefine a line number:
+    # INV-MAP (the source map names, for each stored BASIC line, the file line whose tokens are stored)
+    common.map_rule(ck, F, E, P)
 
     # ---- (2)+(3) CLI
     ls = F.one("StdioInterpreter::load_source_file", "abasic")
@@ -151,6 +161,9 @@ def run(ck, F, E):
                     w.add(fs[-1]["name"])
         ck.require(w == {"enable_warnings", "enable_tracing"}, "C15:CONFIG:options-applied", "R-CONFIG",
                    "warnings -> enable_warnings, tracing -> enable_tracing", "the options are applied as %s" % sorted(w), cf.span)
+    # ---- (3b) both modes show everything the program printed: the CLI's line buffer is empty at every successful exit
+    cli_flush_rule(ck, F)
+
     # ---- (4) page
     path = os.path.join(extract.repo_dir(), "abasic-web", "ts", "main.ts")
     if os.path.exists(path):
@@ -179,3 +192,83 @@ def interp_aggregate_inits(body):
         if "interpreter" in names:
             out.append((b, body.expr(rv["ops"][names.index("interpreter")]), sp))
     return out
+
+
+DIRTY_PRIMS = ("StdioPrinter::print",)
+CLEAN_PRIMS = ("StdioPrinter::print_buffered_output", "StdioPrinter::pop_buffered_output", "StdioPrinter::eprintln")
+
+
+def _buffer_summaries(F):
+    """Per function of the CLI crate: (state after the call if the line buffer was clean before, ... if dirty),
+    where dirty = StdioPrinter.line_buffer may hold unprinted program output.  Forward may-analysis, fixpoint."""
+    fns = {p: b for p, b in F.bodies.items() if b.crate == "abasic"}
+    summ = {p: (False, False) for p in fns}      # optimistic start (clean), grows monotonically to dirty
+
+    def transfer(callee, st):
+        if any(sfx(callee, x) for x in CLEAN_PRIMS):
+            return False
+        if any(sfx(callee, x) for x in DIRTY_PRIMS):
+            return True
+        if callee in summ and not callee.startswith("abasic::stdio_printer::"):
+            return summ[callee][1] if st else summ[callee][0]
+        return st
+
+    def flow(body, init):
+        st_in = {0: init}
+        work = [0]
+        out_ret = False
+        seen_ret = False
+        while work:
+            b = work.pop()
+            st = st_in[b]
+            c = body.call_at(b)
+            if c is not None:
+                st = transfer(c.callee, st)
+            t = body.term(b)
+            if t["k"] == "return":
+                out_ret = out_ret or st
+                seen_ret = True
+            for s2 in body.succs(b):
+                new = st_in.get(s2)
+                if new is None or (st and not new):
+                    st_in[s2] = st or bool(new)
+                    work.append(s2)
+        return out_ret, st_in
+
+    changed = True
+    rounds = 0
+    while changed and rounds < 30:
+        changed = False
+        rounds += 1
+        for p, b in fns.items():
+            if p.startswith("abasic::stdio_printer::"):
+                continue
+            new = (flow(b, False)[0], flow(b, True)[0])
+            if new != summ[p]:
+                summ[p] = new
+                changed = True
+    return summ, flow, transfer
+
+
+def cli_flush_rule(ck, F):
+    ri = F.one("StdioInterpreter::run_impl", "abasic")
+    if ri is None:
+        ck.missing("C15:CLI:run_impl", "abasic::stdio_interpreter::StdioInterpreter::run_impl")
+        return
+    summ, flow, transfer = _buffer_summaries(F)
+    _, st_in = flow(ri, False)
+    oks = []
+    for b, i, pl, rv, sp in aggregates(ri, "core::result::Result", "Ok"):
+        if pl["local"] == 0 and not pl["proj"]:
+            oks.append((b, sp))
+    ck.floor("C15.successful exits of the CLI's main loop", len(oks), 3)
+    n_print = sum(1 for p, b in F.bodies.items() if b.crate == "abasic" for c in b.calls() if any(sfx(c.callee, x) for x in DIRTY_PRIMS))
+    ck.floor("C15.sites writing program output to the CLI's line buffer", n_print, 1)
+    for k, (b, sp) in enumerate(sorted(oks, key=lambda x: (x[1].line if x[1] is not None else 0)), 1):
+        # state at the block entry, then through the block's own call (the aggregate is a statement, before the terminator)
+        dirty = st_in.get(b, False)
+        ck.require(not dirty, "C15:CLI:flushed-at-exit#%d" % k, "both modes show all output",
+                   "the line buffer is empty (print_buffered_output / pop_buffered_output / eprintln on every path since the last "
+                   "StdioPrinter::print) where run_impl returns Ok",
+                   "StdioInterpreter::run_impl can return Ok while StdioPrinter.line_buffer still holds program output that was "
+                   "never written (a final `PRINT \"X\";` or trace record is lost in `abasic FILE` but shown in a piped session)", sp)
